@@ -154,6 +154,20 @@ func (bitsLat) Ident() int           { return 0 }
 func (bitsLat) Equals(a, b int) bool { return a == b }
 func (bitsLat) Merge(a, b int) int   { return a | b }
 
+// and2Lat / and3Lat: int bitsets of width 2 / 3 under intersection (sparse solver); Ident is the
+// full set (3 / 7), not the zero value.
+type and2Lat struct{}
+
+func (and2Lat) Ident() int           { return 3 }
+func (and2Lat) Equals(a, b int) bool { return a == b }
+func (and2Lat) Merge(a, b int) int   { return a & b }
+
+type and3Lat struct{}
+
+func (and3Lat) Ident() int           { return 7 }
+func (and3Lat) Equals(a, b int) bool { return a == b }
+func (and3Lat) Merge(a, b int) int   { return a & b }
+
 func printTable() {
 	var rows []string
 	for a := 0; a < 5; a++ {
